@@ -417,7 +417,21 @@ def evs(v, specs, depth=0):
                 subs = [s for s in subs if not (isinstance(s, dict) and s.get('k') == 'never')] or subs
                 alts = [a + [dict(p, hole=s)] for a in alts for s in subs[:6]][:24]
         return [dict(v, parts=a) for a in alts]
-    if kk in ('try', 'some'):
+    if kk == 'try':
+        outs = []
+        for x in evs(v.get('v'), specs, depth + 1):
+            sh = _shape(x)
+            if isinstance(x, dict) and x.get('k') == 'never':
+                outs.append(x)
+            elif sh in ('Ok', 'Some'):
+                outs.append(_payload(x))          # `Ok(a)?` is `a`
+            elif sh in ('Err', 'None'):
+                outs.append({'k': 'never'})       # `Err(e)?` leaves the function: no value here
+            else:
+                outs.append(dict(v, v=x))
+        live = [o for o in outs if not (isinstance(o, dict) and o.get('k') == 'never')]
+        return live or outs
+    if kk == 'some':
         return [dict(v, v=x) if not (isinstance(x, dict) and x.get('k') == 'never') else x for x in evs(v.get('v'), specs, depth + 1)]
     if kk == 'call':
         outs = [v]
@@ -472,7 +486,18 @@ def evs(v, specs, depth=0):
                     return [{'k': 'never'}]      # `Some` payload of a look-up assumed to miss
                 return [v]
         outs = []
+        want = str(v.get('variant', '')).replace(' ', '')
         for o in evs(v.get('of'), specs, depth + 1):
+            oc = vt.unvar(o)
+            if isinstance(oc, dict) and oc.get('k') == 'call' and oc.get('recv') is None and '::' in want and v.get('pos') is not None:
+                # payload of a value that is a known constructor call: `match Shape::Fields(x) { Shape::Fields(f) => f }`
+                fn_ = str(oc.get('f', '')).replace(' ', '').replace('Self::', want.rsplit('::', 1)[0].split('::')[-1] + '::')
+                if fn_.split('::')[-2:] == want.split('::')[-2:] and int(v['pos']) < len(oc.get('args', [])):
+                    outs += evs(oc['args'][int(v['pos'])], specs, depth + 1)
+                    continue
+                if fn_.split('::')[-2:-1] == want.split('::')[-2:-1] and fn_.split('::')[-1] != want.split('::')[-1] and fn_.split('::')[-1][:1].isupper():
+                    outs.append({'k': 'never'})   # another variant of the same enum: this arm is not taken
+                    continue
             sh = _shape(o)
             if sh is not None and sh != v.get('variant'):
                 outs.append({'k': 'never'})      # `Some` payload of a value that is `None` on this path: path impossible
@@ -496,6 +521,12 @@ def evs(v, specs, depth=0):
 
 def ev(v, param, variant, depth=0):
     return evs(v, [EnumSpec(param, variant)], depth)
+
+
+def simplify(v):
+    """Alternatives of a value with no assumption at all: `?` on known `Ok(..)`, payloads of known constructor calls, tuple
+    projections and helper results (`alt`) folded — what a local holds after a helper returned it wrapped in a private enum."""
+    return [x for x in evs(copy.deepcopy(v), []) if not (isinstance(x, dict) and x.get('k') == 'never')]
 
 
 def _bind_payload(v, scrutinee_value):
